@@ -72,15 +72,15 @@ const RULE: &str = "seeded random histories (10-60 operations) of contract-respe
 
 pub fn spec_for(prop: &str) -> Option<Spec> {
     Some(match prop {
-        "C05" => Spec { prop: "C05", focus: &[Focus::Hostile, Focus::General, Focus::Size, Focus::Flow], hostile_pct: 30, quick: 120_000, thorough: 12_000_000, floors: &[("X3-frame-delivered-answered-or-reported", 10_000)], rule_text: RULE },
-        "C06" => Spec { prop: "C06", focus: &[Focus::Store, Focus::General], hostile_pct: 4, quick: 80_000, thorough: 8_000_000, floors: &[("S1-accepted-publish-sent-or-stored", 5_000), ("S3-store-changes-only-for-a-cause", 100_000), ("S4-resend-store-in-order-after-connack", 1_000), ("S6-only-matching-ack-is-accepted", 2_000)], rule_text: RULE },
-        "C07" => Spec { prop: "C07", focus: &[Focus::Qos2In], hostile_pct: 4, quick: 80_000, thorough: 8_000_000, floors: &[("Q1-qos2-notified-at-most-once-per-exchange", 5_000), ("Q2-handled-set-equals-model", 100_000), ("Q4-duplicate-answered-with-pubrec", 500)], rule_text: RULE },
-        "C08" => Spec { prop: "C08", focus: &[Focus::Ids, Focus::Store], hostile_pct: 4, quick: 80_000, thorough: 8_000_000, floors: &[("P1-acquire-returns-free-id", 10_000), ("P3-release-announced-only-for-in-use-id", 5_000), ("P4-in-use-set-equals-model", 100_000), ("P5b-refused-send-releases-id", 1_000), ("P5c-close-releases-inflight-ids", 5_000)], rule_text: RULE },
-        "C12" => Spec { prop: "C12", focus: &[Focus::Flow], hostile_pct: 3, quick: 80_000, thorough: 8_000_000, floors: &[("F1-vacancy-equals-max-minus-outstanding", 50_000), ("F2-accept-iff-below-receive-maximum", 5_000), ("F3-inbound-excess-not-delivered", 1_000)], rule_text: RULE },
-        "C13" => Spec { prop: "C13", focus: &[Focus::Alias], hostile_pct: 3, quick: 80_000, thorough: 8_000_000, floors: &[("AL1-empty-topic-resolvable-at-receiver", 1_000), ("AL2-alias-within-peer-maximum", 2_000), ("AL5-inbound-alias-resolves-to-bound-topic", 300)], rule_text: RULE },
-        "C14" => Spec { prop: "C14", focus: &[Focus::Size, Focus::Size, Focus::Store, Focus::Hostile], hostile_pct: 6, quick: 80_000, thorough: 8_000_000, floors: &[("Z1-sent-size-within-peer-maximum", 20_000)], rule_text: RULE },
-        "C15" => Spec { prop: "C15", focus: &[Focus::Timers, Focus::General], hostile_pct: 4, quick: 80_000, thorough: 8_000_000, floors: &[("T1-cancel-only-armed", 5_000), ("T2-no-timer-armed-after-close-or-disconnect", 10_000), ("T4-client-rearms-pingreq-after-send", 5_000), ("T5-server-rearms-receive-timer", 5_000), ("T7-expiry-has-specified-effect", 500)], rule_text: RULE },
-        "C19" => Spec { prop: "C19", focus: &[Focus::Hostile, Focus::Timers, Focus::General, Focus::Store, Focus::Qos2In], hostile_pct: 20, quick: 100_000, thorough: 10_000_000, floors: &[("K1-close-after-last-send", 10_000), ("K2-closing-packet-accompanied-by-close", 5_000), ("K3-timeout-results-in-close", 200)], rule_text: RULE },
+        "C05" => Spec { prop: "C05", focus: &[Focus::Hostile, Focus::General, Focus::Size, Focus::Flow], hostile_pct: 30, quick: 700_000, thorough: 25_000_000, floors: &[("X3-frame-delivered-answered-or-reported", 10_000)], rule_text: RULE },
+        "C06" => Spec { prop: "C06", focus: &[Focus::Store, Focus::General], hostile_pct: 4, quick: 500_000, thorough: 20_000_000, floors: &[("S1-accepted-publish-sent-or-stored", 5_000), ("S3-store-changes-only-for-a-cause", 100_000), ("S4-resend-store-in-order-after-connack", 1_000), ("S6-only-matching-ack-is-accepted", 2_000)], rule_text: RULE },
+        "C07" => Spec { prop: "C07", focus: &[Focus::Qos2In], hostile_pct: 4, quick: 500_000, thorough: 20_000_000, floors: &[("Q1-qos2-notified-at-most-once-per-exchange", 5_000), ("Q2-handled-set-equals-model", 100_000), ("Q4-duplicate-answered-with-pubrec", 500)], rule_text: RULE },
+        "C08" => Spec { prop: "C08", focus: &[Focus::Ids, Focus::Store], hostile_pct: 4, quick: 500_000, thorough: 20_000_000, floors: &[("P1-acquire-returns-free-id", 10_000), ("P3-release-announced-only-for-in-use-id", 5_000), ("P4-in-use-set-equals-model", 100_000), ("P5b-refused-send-releases-id", 1_000), ("P5c-close-releases-inflight-ids", 5_000)], rule_text: RULE },
+        "C12" => Spec { prop: "C12", focus: &[Focus::Flow], hostile_pct: 3, quick: 500_000, thorough: 20_000_000, floors: &[("F1-vacancy-equals-max-minus-outstanding", 50_000), ("F2-accept-iff-below-receive-maximum", 5_000), ("F3-inbound-excess-not-delivered", 1_000)], rule_text: RULE },
+        "C13" => Spec { prop: "C13", focus: &[Focus::Alias], hostile_pct: 3, quick: 500_000, thorough: 20_000_000, floors: &[("AL1-empty-topic-resolvable-at-receiver", 1_000), ("AL2-alias-within-peer-maximum", 2_000), ("AL5-inbound-alias-resolves-to-bound-topic", 300)], rule_text: RULE },
+        "C14" => Spec { prop: "C14", focus: &[Focus::Size, Focus::Size, Focus::Store, Focus::Hostile], hostile_pct: 6, quick: 500_000, thorough: 20_000_000, floors: &[("Z1-sent-size-within-peer-maximum", 20_000)], rule_text: RULE },
+        "C15" => Spec { prop: "C15", focus: &[Focus::Timers, Focus::General], hostile_pct: 4, quick: 500_000, thorough: 20_000_000, floors: &[("T1-cancel-only-armed", 5_000), ("T2-no-timer-armed-after-close-or-disconnect", 10_000), ("T4-client-rearms-pingreq-after-send", 5_000), ("T5-server-rearms-receive-timer", 5_000), ("T7-expiry-has-specified-effect", 500)], rule_text: RULE },
+        "C19" => Spec { prop: "C19", focus: &[Focus::Hostile, Focus::Timers, Focus::General, Focus::Store, Focus::Qos2In], hostile_pct: 20, quick: 600_000, thorough: 20_000_000, floors: &[("K1-close-after-last-send", 10_000), ("K2-closing-packet-accompanied-by-close", 5_000), ("K3-timeout-results-in-close", 200)], rule_text: RULE },
         _ => return None,
     })
 }
